@@ -251,6 +251,71 @@ func lexSQL(s string, quote byte) []sqlTok {
 	return out
 }
 
+// c13PlaceholderAgreement: every bound argument meets exactly one placeholder. For $n
+// placeholders the numbers used must be 1..k, each once, with k = len(args); for ? the
+// count must equal len(args). A statement whose placeholders do not line up with its
+// arguments binds a caller's value to another column than the one it was given for.
+func c13PlaceholderAgreement(sql string, nargs int) string {
+	var nums []int
+	q := 0
+	inIdent, inStr := byte(0), false
+	for i := 0; i < len(sql); i++ {
+		c := sql[i]
+		switch {
+		case inStr:
+			if c == '\'' {
+				inStr = false
+			}
+		case inIdent != 0:
+			if c == inIdent {
+				inIdent = 0
+			}
+		case c == '\'':
+			inStr = true
+		case c == '"' || c == '`':
+			inIdent = c
+		case c == '?':
+			q++
+		case c == '$':
+			j := i + 1
+			n := 0
+			for j < len(sql) && sql[j] >= '0' && sql[j] <= '9' {
+				n = n*10 + int(sql[j]-'0')
+				j++
+			}
+			if j > i+1 {
+				nums = append(nums, n)
+			}
+			i = j - 1
+		}
+	}
+	if len(nums) > 0 && q > 0 {
+		return fmt.Sprintf("mixes %d numbered and %d positional placeholders", len(nums), q)
+	}
+	if q > 0 || (len(nums) == 0 && nargs > 0) {
+		if q != nargs {
+			return fmt.Sprintf("%d positional placeholders for %d arguments", q, nargs)
+		}
+		return ""
+	}
+	seen := map[int]int{}
+	for _, n := range nums {
+		seen[n]++
+	}
+	for n, c := range seen {
+		if n < 1 || n > nargs {
+			return fmt.Sprintf("placeholder $%d with %d arguments", n, nargs)
+		}
+		if c > 1 {
+			return fmt.Sprintf("placeholder $%d is used %d times (arguments: %d)", n, c, nargs)
+		}
+	}
+	if len(seen) != nargs {
+		return fmt.Sprintf("%d distinct placeholders for %d arguments", len(seen), nargs)
+	}
+	return ""
+}
+
 func skeleton(toks []sqlTok) string {
 	var b []string
 	for _, t := range toks {
@@ -406,6 +471,11 @@ func c13Run(env *c13Env, cs c13Case, vals []string) (stmts []recStmt, panicked i
 		orm.NewQueryBuilder().Select(id("col"), id("col2")).Get(ctx)
 	case "qb.where":
 		orm.NewQueryBuilder().Where(id("col"), cs.Op, v(0)).Where(id("col2"), "=", v(1)).Get(ctx)
+	case "qb.wherelist":
+		// a list value (IN-style) followed by further conditions: however a list is rendered,
+		// every later value must still meet its own placeholder
+		list := []interface{}{v(0), v(1), "third"}[:1+len(vals[0])%3]
+		orm.NewQueryBuilder().Where(id("col"), cs.Op, list).Where(id("col2"), "=", v(1)).WhereEq(id("col"), "tail").Get(ctx)
 	case "qb.orderby":
 		orm.NewQueryBuilder().OrderBy(id("col"), cs.Dir).Limit(3).Offset(1).Get(ctx)
 	case "qb.join":
@@ -470,7 +540,7 @@ func c13Run(env *c13Env, cs c13Case, vals []string) (stmts []recStmt, panicked i
 	return
 }
 
-var c13Entries = []string{"qb.select", "qb.where", "qb.orderby", "qb.join", "qb.first", "orm.create", "orm.update", "orm.delete", "orm.count", "orm.exists", "orm.findbyid", "orm.findall",
+var c13Entries = []string{"qb.select", "qb.where", "qb.wherelist", "qb.orderby", "qb.join", "qb.first", "orm.create", "orm.update", "orm.delete", "orm.count", "orm.exists", "orm.findbyid", "orm.findall",
 	"th.get", "th.create", "th.update", "th.delete", "th.count", "th.countwhere", "th.filter", "th.exists", "th.where", "th.findwhere", "th.first", "th.last", "th.length", "th.nextid", "th.all",
 	"drv.bulkinsert", "drv.createtable", "drv.droptable", "drv.tableexists", "drv.lastinsertid"}
 
@@ -480,7 +550,7 @@ func c13Slots(entry string) (idents []string, usesOp, usesDir, usesJoin, usesTyp
 	switch entry {
 	case "qb.select":
 		return []string{"table", "col", "col2"}, false, false, false, false
-	case "qb.where":
+	case "qb.where", "qb.wherelist":
 		return []string{"table", "col", "col2"}, true, false, false, false
 	case "qb.orderby":
 		return []string{"table", "col"}, false, true, false, false
@@ -743,6 +813,10 @@ func checkC13(tier string) {
 		pseudo := false
 		if len(bst) == len(stmts) && !pseudo {
 			for k := range stmts {
+				if why := c13PlaceholderAgreement(stmts[k].SQL, len(stmts[k].Args)); why != "" {
+					r.Violate("sql:placeholders-do-not-match-arguments:"+entry, fmt.Sprintf("%s/%s: %s in %s", dialect, entry, why, clip(stmts[k].SQL)), map[string]interface{}{"case": cs, "sql": clipN(stmts[k].SQL, 400), "args": fmt.Sprint(stmts[k].Args)})
+				}
+				r.Count("placeholder_agreement_checked", 1)
 				toks := lexSQL(stmts[k].SQL, quote)
 				sk, bsk := skeleton(toks), skeleton(lexSQL(bst[k].SQL, quote))
 				if sk != bsk && uDir {
